@@ -10,7 +10,7 @@ import ast
 from typing import Dict, List, Optional, Set
 
 from fsa.match import dotted, is_call, is_const, is_self_call, kwarg, method_call, has_star_args, has_star_kwargs
-from fsa.source import iter_own_nodes, stmt_key, text
+from fsa.source import Unsupported, iter_own_nodes, stmt_key, text
 from rules.common import Fn
 
 T = 'fsic.tools'
@@ -150,9 +150,47 @@ def r2_model_to_dataframe(R) -> None:
             where=cf.where)
 
 
-def _flags_forwarded(R, q: str, call: ast.Call, where: str) -> None:
+def _effective_kwargs(fnode: ast.AST, call: ast.Call):
+    """Keyword arguments of `call` with `**options` read through when `options` is a dict display with constant keys
+    at the call (gated symbolic value); None if a `**` argument cannot be resolved."""
+    out = {k.arg: k.value for k in call.keywords if k.arg is not None}
+    stars = [k.value for k in call.keywords if k.arg is None]
+    if not stars:
+        return out
+    from fsa.gated import SymExec
+    se = SymExec(fnode)
+    st = None
+    for s_ in ast.walk(fnode):
+        if isinstance(s_, ast.stmt) and id(s_) in se.before and any(x is call for x in ast.walk(s_)):
+            if st is None or any(x is s_ for x in ast.walk(st)):
+                st = s_
+    if st is None:
+        return None
+    for sv in stars:
+        v = se.value(st, sv)
+        if isinstance(v, ast.Call) and isinstance(v.func, ast.Name) and v.func.id == 'dict' and not v.args:
+            for k in v.keywords:
+                if k.arg is None:
+                    return None
+                out.setdefault(k.arg, k.value)
+            continue
+        if not isinstance(v, ast.Dict):
+            if isinstance(v, ast.Name) and v.id.split('@')[0] == 'kwargs':
+                continue  # the function's own **kwargs passed on: carries no named flag
+            return None
+        for k, val in zip(v.keys, v.values):
+            if not (isinstance(k, ast.Constant) and isinstance(k.value, str)):
+                return None
+            out[k.value] = val  # later keys win, and a ** after explicit keywords cannot repeat them
+    return out
+
+
+def _flags_forwarded(R, q: str, call: ast.Call, where: str, fnode: ast.AST = None) -> None:
+    kws = _effective_kwargs(fnode, call) if fnode is not None else {k.arg: k.value for k in call.keywords if k.arg is not None}
+    if kws is None:
+        raise Unsupported(f'{q}: `{text(call)[:60]}` passes a ** mapping that is not a dict display at the call')
     for fl in FLAGS:
-        v = kwarg(call, fl)
+        v = kws.get(fl)
         R.check(isinstance(v, ast.Name) and v.id == fl, q, f'flag:{fl}:{text(v) if v is not None else None}', f'{fl} forwarded unchanged',
                 f'`{text(call.func)}(...)` receives {fl}={text(v) if v is not None else "<missing>"}', where=where)
 
@@ -164,19 +202,44 @@ def r3_linker_export(R) -> None:
     if not R.require(q, len(calls), 'to_dataframe() for the linker and for each submodel', fi=f.fi, minimum=2, pred=lambda x: method_call(x, 'to_dataframe')):
         return
     owners = sorted(text(c.func.value) for c in calls)
-    R.check(owners == ['linker', 'model'], q, f'owners:{owners}', 'one frame for the linker, one per submodel', f'to_dataframe is called on {owners}', where=f.fi.where)
+    R.check(len(owners) == 2 and (f.fi.params() + ['linker'])[0] in owners, q, f'owners:{owners}', 'one frame for the linker, one per submodel', f'to_dataframe is called on {owners}', where=f.fi.where)
     for c in calls:
-        _flags_forwarded(R, q, c, f'{f.fi.module.relpath}:{c.lineno}')
-    src = text(f.fi.node)
-    R.check('for name, model in linker.submodels.items()' in src and 'results[name] =' in src and 'linker.name:' in src, q, 'keys',
-            'frames are keyed by the linker name and the submodel ids', 'result keys are not linker.name / submodel ids', where=f.fi.where)
+        _flags_forwarded(R, q, c, f'{f.fi.module.relpath}:{c.lineno}', f.fi.node)
+    # keys: the linker's frame under linker.name, each submodel's under its id
+    lk = (f.fi.params() + ['linker'])[0]
+    key_ok = {'linker': False, 'submodels': False}
+    for d in ast.walk(f.fi.node):
+        if isinstance(d, ast.Dict):
+            for k, v in zip(d.keys, d.values):
+                if k is not None and text(k) == f'{lk}.name' and method_call(v, 'to_dataframe') and text(v.func.value) == lk:
+                    key_ok['linker'] = True
+        if isinstance(d, ast.DictComp) and method_call(d.value, 'to_dataframe'):
+            g = d.generators[0]
+            tg = [x.id for x in ast.walk(g.target) if isinstance(x, ast.Name)]
+            if text(g.iter) in (f'{lk}.submodels.items()', f"{lk}.__dict__['submodels'].items()") and len(tg) == 2 and text(d.key) == tg[0] and text(d.value.func.value) == tg[1] and not g.ifs:
+                key_ok['submodels'] = True
+    for n in f.cfg.nodes:
+        a = n.ast
+        if n.kind == 'stmt' and isinstance(a, ast.Assign) and isinstance(a.targets[0], ast.Subscript) and method_call(f.expand(n.id, a.value), 'to_dataframe'):
+            v = f.expand(n.id, a.value)
+            if text(a.targets[0].slice) == f'{lk}.name' and text(v.func.value) == lk and not n.loops:
+                key_ok['linker'] = True
+            dc = f.loop_store_comp(n) if n.loops else None
+            if dc is not None:
+                g = dc.generators[0]
+                tg = [x.id for x in ast.walk(g.target) if isinstance(x, ast.Name)]
+                if text(g.iter) in (f'{lk}.submodels.items()', f"{lk}.__dict__['submodels'].items()") and len(tg) == 2 and text(dc.key) == tg[0] \
+                        and method_call(dc.value, 'to_dataframe') and text(dc.value.func.value) == tg[1] and not g.ifs:
+                    key_ok['submodels'] = True
+    R.check(key_ok['linker'] and key_ok['submodels'], q, 'keys',
+            'frames are keyed by the linker name and the submodel ids', f'result keys are not linker.name / submodel ids ({key_ok})', where=f.fi.where)
     for mq, callee in (('fsic.core.models.BaseModel.to_dataframe', '_model_to_dataframe'), ('fsic.core.linkers.BaseLinker.to_dataframe', '_model_to_dataframe'),
                        ('fsic.core.linkers.BaseLinker.to_dataframes', '_linker_to_dataframes')):
         mf = R.repo.func(mq)
         cs = [x for x in ast.walk(mf.node) if is_call(x, callee)]
         if R.require(mq, len(cs), f'{callee}(self, ...)', fi=mf, pred=lambda x: isinstance(x, ast.Call)):
             R.check(cs[0].args and text(cs[0].args[0]) == 'self', mq, 'self-arg', 'the object itself is exported', f'`{text(cs[0])[:50]}`', where=mf.where)
-            _flags_forwarded(R, mq, cs[0], mf.where)
+            _flags_forwarded(R, mq, cs[0], mf.where, mf.node)
     # the aliases point at the tools functions
     for modname, alias, target in (('fsic.core.models', '_model_to_dataframe', 'model_to_dataframe'), ('fsic.core.linkers', '_linker_to_dataframes', 'linker_to_dataframes')):
         mod = R.repo.module(modname)
